@@ -389,7 +389,15 @@ def str_method(ip: Interp, obj: SV, name: str, args, kw) -> SV:
     if name == 'join':
         return ip.join(s, args[0])
     if name == 'replace':
-        return mk_str(replace_all(s, ip.as_str(args[0]), ip.as_str(args[1])))
+        src, dst = ip.as_str(args[0]), ip.as_str(args[1])
+        r = replace_all(s, src, dst)
+        cs, cd = z3.simplify(src), z3.simplify(dst)
+        if z3.is_string_value(cs) and z3.is_string_value(cd) and len(cs.as_string()) == 1 \
+                and cs.as_string() not in cd.as_string():
+            # trusted fact about str.replace: replacing every occurrence of a single character by
+            # text that does not contain it leaves no occurrence
+            st.fact(z3.Not(z3.Contains(r, src)))
+        return mk_str(r)
     if name == 'upper':
         return mk_str(str_upper(s))
     if name == 'lower':
@@ -418,13 +426,18 @@ def str_method(ip: Interp, obj: SV, name: str, args, kw) -> SV:
     raise Unsupported(f'str.{name}')
 
 
+split_arr = z3.Function('split_arr', S, S, ElArr)
+split_len = z3.Function('split_len', S, S, I)
+
+
 def str_split(ip: Interp, s, sep) -> SV:
-    """s.split(sep): fresh list of strings with the defining facts needed by pydbml."""
+    """s.split(sep): a fresh list whose contents are a *function* of (s, sep) (so that two calls on
+    the same text give element-wise identical lists), with the defining facts pydbml relies on."""
     st = ip.st
     lst = ip.new_list([], T=('list', ('str',)))
     r = lst.e
-    arr = st.fresh('parts', ElArr)
-    n = st.fresh('nparts', I)
+    arr = split_arr(s, sep)
+    n = split_len(s, sep)
     st.set_arr('L_el', z3.Store(st.L_el, r, arr), r)
     st.set_arr('L_len', z3.Store(st.L_len, r, n), r)
     j = z3.Int('j!sp')
